@@ -28,7 +28,8 @@ def run(ctx):
     warnings.filterwarnings("ignore")
 
     def setgv(i):
-        gv(sps=[16, 8, 32][i % 3], R=[10e9, 25e9, 12.5e9][i % 3])          # fs = 160, 200, 400 GS/s
+        # fs = 160, 200, 400 GS/s; the optical carrier of the simulation is not always the default 1550 nm
+        gv(sps=[16, 8, 32][i % 3], R=[10e9, 25e9, 12.5e9][i % 3], wavelength=[1550e-9, 1550.12e-9, 1310e-9, 1549.3e-9][i % 4])
         return gv.fs
 
     def rel(a, b):
